@@ -11,7 +11,10 @@ MANIFEST = dict(
           "remap of every window on a size change, the three resize policies, maxoff, copy, open/close): the pieces of a request "
           "partition it for every window layout; with shared windows every read equals the slice of one flat byte array and every "
           "write/truncate updates that array as pwrite/ftruncate would, for all call sequences; sizes stay page aligned, within maxoff and "
-          "equal to the physical size; private windows read back what was written until they are re-mapped. The model is tied to the code "
+          "equal to the physical size unless a copy went beyond it (characterised exactly, as is the size the next open sees); ensure_size reaches every "
+          "request maxoff admits and the growth sequences of all policies are monotone, aligned and bounded by maxoff; with any number of private "
+          "windows every history refines a two-layer reference (file array + per-window copy-on-write pages), a write is always read back, "
+          "and a later read differs from the flat array exactly under the stated remap/remove/file-copy condition. The model is tied to the code "
           "by a differential run of the real IWFS_EXT (ASan/UBSan build) against the compiled Lean model, with a flat shadow array as oracle"),
     note=("trusted: Lean kernel, translator, harness/generator, gcc+ASan/UBSan, Linux coherence of MAP_SHARED mappings with pread/pwrite and "
           "page-granular copy-on-write of MAP_PRIVATE; modelled not verified: the C control flow of iwexfile.c/iwfile.c/iwp_copy_bytes; "
@@ -24,6 +27,14 @@ THEOREMS = [
     "IwModel.C12.copy_is_memmove", "IwModel.C12.ensure_follows_policy", "IwModel.C12.reopen_size_partial",
     "IwModel.C12.private_read_after_write_partial", "IwModel.C12.private_remap_loses_write",
     "IwModel.C12.private_remove_loses_write", "IwModel.C12.private_copy_bypasses_window", "IwModel.C12.copy_beyond_grows_disk",
+    # private windows, any number: two-layer reference, exact divergence (C12-PRIV)
+    "IwModel.C12.private_inv", "IwModel.C12.private_refines_two_layer", "IwModel.C12.read_is_view",
+    "IwModel.C12.private_read_after_write", "IwModel.C12.private_diverges_iff", "IwModel.C12.shared_never_diverges",
+    # size on disk / next open at full strength (C12-COPYEXT exactly)
+    "IwModel.C12.disk_size_step", "IwModel.C12.copy_extends_disk_iff", "IwModel.C12.reopen_size", "IwModel.C12.reopen_same_size_iff",
+    # resize policies
+    "IwModel.C12.ensure_reaches_request", "IwModel.C12.ensure_beyond_maxoff_fails", "IwModel.C12.policy_fits",
+    "IwModel.C12.resize_sequence", "IwModel.C12.fibo_sequence_reaches",
 ]
 
 PS = 4096
@@ -525,7 +536,7 @@ def case_private_remap(r, ctx, nops):
     woff = r.randrange(0, pages) * PS
     g.emit("am %d %d 1" % (woff, r.choice([1 << 40, (pages + 2) * PS])))
     g.emit("w %d %d %d" % (woff + r.randrange(0, 100), r.randrange(1, PS), r.randrange(1, 251)))
-    how = r.choice(["grow", "shrink", "remove", "copy"])
+    how = r.choice(["grow", "shrink", "remove", "copy", "copy-onto"])
     ctx.hist("private-remap:" + how)
     if how == "grow":
         g.emit("es %d" % (pages * PS + 1))
@@ -534,6 +545,12 @@ def case_private_remap(r, ctx, nops):
         g.emit("tr %d" % (pages * PS))
     elif how == "remove":
         g.emit("rm %d" % woff)
+    elif how == "copy-onto":
+        # a copy through the file onto a page the private window has already copied: the overlay keeps its old bytes
+        # (private_diverges_iff, destination byte held in an overlay); needs a file path: window not at 0 or source outside it
+        src = r.choice([p for p in range(pages) if p * PS != woff] or [0]) * PS
+        g.emit("cp %d %d %d" % (src + r.randrange(0, 50), r.randrange(200, PS - 100), woff + r.randrange(0, 100)))
+        g.emit("r %d %d" % (woff, PS))
     else:
         g.emit("tr %d" % ((pages + 2) * PS))
         g.emit("cp %d %d %d" % (woff, PS, (pages + 1) * PS))
@@ -553,7 +570,22 @@ def case_copy_beyond(r, ctx, nops):
         g.emit("am %d %d 0" % (r.randrange(0, 2) * PS, r.choice([PS, 1 << 40])))
     fs = g.fl.fsize
     siz = r.randrange(1, fs)
-    g.emit("cp %d %d %d" % (r.randrange(0, fs - siz + 1), siz, fs - r.randrange(0, siz)))
+    where = r.choice(["inside", "inside", "straddle-eof", "behind-source", "at-eof"])
+    ctx.hist("copy-beyond:" + where)
+    if where == "inside":
+        g.emit("cp %d %d %d" % (r.randrange(0, fs - siz + 1), siz, fs - r.randrange(0, siz)))
+    elif where == "behind-source":
+        # source inside, destination behind the whole source range and (partly) beyond the size: disk = noff + siz (copy_extends_disk_iff)
+        off = r.randrange(0, fs - siz + 1)
+        g.emit("cp %d %d %d" % (off, siz, max(off + siz, fs - r.randrange(0, siz)) + r.choice([0, 1, PS, 3 * PS + 5])))
+    elif where == "straddle-eof":
+        # source starts inside the file and ends beyond it, destination behind the source: the chunk loop reads short once and
+        # then reads the bytes it appended itself (fileCopy_length); the flat reference leaves the bytes unspecified, sizes are compared
+        off = fs - r.randrange(1, min(siz, fs) + 1)
+        big = r.choice([siz, siz, PS + r.randrange(1, 2 * PS), 2 * PS + 1])
+        g.emit("cp %d %d %d" % (off, big, off + big + r.choice([0, 1, 100, PS])))
+    else:
+        g.emit("cp %d %d %d" % (fs + r.choice([0, 1, PS]), siz, fs + 2 * PS + siz))    # source at/behind the end: nothing is copied
     g.emit("r 0 %d" % (fs + 2 * PS))      # before `st`: a read that crosses the logical size must stop there
     g.emit("r %d %d" % (fs - r.randrange(0, 50), 2 * PS))
     g.emit("st")
@@ -561,10 +593,50 @@ def case_copy_beyond(r, ctx, nops):
         g.emit("es %d" % (fs + r.randrange(1, 3 * PS)))
         g.emit("r 0 %d" % (fs + 4 * PS))
     g.emit("close")
-    g.open(trunc=0, maxoff=0, initial=0)
+    # the next open: disk size rounded up to a page (reopen_size); under a maxoff the rounding may be refused
+    g.open(trunc=0, maxoff=r.choice([0, 0, fs, fs + PS, fs + 2 * PS + 1]), initial=0)
     g.emit("r 0 %d" % (fs + 4 * PS))
+    g.emit("st")
     g.emit("close")
     return Case("copy-beyond", g.ops, make_oracle(g.ops))
+
+
+def case_maxoff_clamp(r, ctx, nops):
+    """growth requests at and just below maxoff under the growing policies: the proposal of the policy passes maxoff while the
+    request does not, so ensure_size must cut the proposal down to maxoff (ensure_reaches_request); requests beyond maxoff fail"""
+    g = Gen(r, ctx, "maxoff-clamp")
+    mpages = r.randrange(4, 30)
+    maxoff = mpages * PS + r.choice([0, 0, 1, PS - 1])
+    pol = r.choice(["fibo 0 0", "fibo 0 0", "mul 2 1", "mul 3 2", "mul 5 4", "mul 7 2", "def 0 0"])
+    g.emit("open %s %d %d 1" % (pol, maxoff, r.choice([0, PS, r.randrange(0, 3 * PS)])))
+    ctx.hist("policy:" + pol.split()[0])
+    ctx.hist("maxoff:set")
+    if r.random() < 0.5:
+        g.add_window(0)
+    M = mpages * PS
+    for _ in range(r.randrange(3, 9)):
+        fs = g.fl.fsize
+        need = r.choice([fs + 1, fs + PS, fs + r.randrange(1, 3 * PS), (fs + M) // 2 + 1, M - r.randrange(0, PS), M - PS + 1, M, M,
+                         M + 1, M + PS])
+        kind, n, d = g.fl.pol
+        prop = rup(max(fs + g.fl.prev, need)) if kind == "fibo" else rup(need // d * n) if kind == "mul" and d and n >= d else rup(need)
+        if need > fs:
+            ctx.hist("clamp:" + ("beyond-maxoff" if need > M else "cut-to-maxoff" if prop > M and prop >= need else
+                                 "policy-short" if prop < need else "below"))
+        if r.random() < 0.5:
+            g.emit("es %d" % need)
+        else:
+            ln = r.choice([1, 17, min(need, 300)])
+            g.emit("w %d %d %d" % (need - ln, ln, r.randrange(1, 251)))
+            g.emit("r %d %d" % (max(0, need - ln - 3), ln + 10))
+    g.final_reads()
+    g.emit("close")
+    if r.random() < 0.3:
+        g.open(trunc=0, maxoff=r.choice([maxoff, maxoff - PS, 0]))
+        g.body(6)
+        g.final_reads()
+        g.emit("close")
+    return Case("maxoff-clamp", g.ops, make_oracle(g.ops))
 
 
 def case_odd(r, ctx, nops):
@@ -601,7 +673,8 @@ def case_odd(r, ctx, nops):
     return Case("odd", g.ops, make_oracle(g.ops))
 
 
-GENS = [(case_shared, 10), (case_private_safe, 4), (case_odd, 2), (case_private_remap, 0.5), (case_copy_beyond, 0.6)]
+GENS = [(case_shared, 10), (case_private_safe, 4), (case_odd, 2), (case_private_remap, 0.6), (case_copy_beyond, 0.9),
+        (case_maxoff_clamp, 1.2)]
 
 
 def gen_cases(r, ctx, n, nops):
